@@ -171,17 +171,29 @@ def numbers_in(v, acc):
 
 
 def signature_numbers(ck, case):
-    """numeric literals in the defaults of the function's signature (e.g. the whole-globe bounding box of location_test)"""
+    """numeric literals that the test's module *declares*: defaults in signatures (e.g. the whole-globe bounding box of location_test, wherever a
+    decorator or helper keeps them) and module- / class-level constants.  Numbers computed inside function bodies are not among them."""
     import ast
-    fn = ck.runner.function(MODS.get(case.test, case.meta.get('module')), case.meta.get('qual', case.test))
-    node = getattr(fn, 'node', None)
+    modname = MODS.get(case.test, case.meta.get('module'))
+    cache = ck.__dict__.setdefault('_declared_numbers', {})
+    if modname in cache:
+        return cache[modname]
     acc = set()
-    if node is None:
-        return acc
-    for d in list(node.args.defaults) + [k for k in node.args.kw_defaults if k is not None]:
-        for sub in ast.walk(d):
+    tree = ck.runner.interp.repo.module(modname).tree
+
+    def lits(node):
+        for sub in ast.walk(node):
             if isinstance(sub, ast.Constant) and isinstance(sub.value, (int, float)) and not isinstance(sub.value, bool):
                 acc.add(Fr(sub.value))
+    for node in ast.walk(tree):
+        if isinstance(node, (ast.FunctionDef, ast.AsyncFunctionDef, ast.Lambda)):
+            for d in list(node.args.defaults) + [k for k in node.args.kw_defaults if k is not None]:
+                lits(d)
+    for scope in [tree] + [n for n in ast.walk(tree) if isinstance(n, ast.ClassDef)]:
+        for st in scope.body:
+            if isinstance(st, (ast.Assign, ast.AnnAssign)) and st.value is not None:
+                lits(st.value)
+    cache[modname] = acc
     return acc
 
 
